@@ -1021,6 +1021,7 @@ func runW24(mode string) command {
 		for i := 0; i < c.N; i++ {
 			c24gen(c, env, s)
 		}
+		c24updater(c, env, s)
 	}
 }
 
